@@ -21,7 +21,7 @@ ASSUMPTIONS = [
     "an encoded '.notdef' (maps to glyph 0 = unmapped) and UVS data on unmapped base code points are outside the statement and not generated",
 ]
 N = {"quick": (8, 500), "thorough": (16, 2500)}
-FLOORS = {"supplementary-cp": 0.1, "order-reorders": 0.1, "duplicate-cp-rejected": 0.01, "uvs": 0.05}
+FLOORS = {"argument-overrides-stored-order": 0.05, "supplementary-cp": 0.1, "order-reorders": 0.1, "duplicate-cp-rejected": 0.01, "uvs": 0.05}
 
 NAMES = [".notdef", "a", "b", "c", "B", "zz", "a.alt", "_x", "A", "f_i", "uni0041"]
 CPS = [0x20, 0x41, 0x61, 0xFFFD, 0xFFFE, 0xFFFF, 0x10000, 0x10001, 0x1F600, 0x10FFFF, 0x3042, 0x0, 0xD, 0xE000, 0xF0000]
@@ -41,7 +41,10 @@ def _case(draw):
             continue
         if cp not in g["unicodes"]:
             g["unicodes"].append(cp)
-    order = draw(st.one_of(st.none(), st.lists(st.sampled_from(NAMES + ["ghost"]), max_size=9), st.permutations(names)))
+    order_st = st.one_of(st.none(), st.lists(st.sampled_from(NAMES + ["ghost"]), max_size=9), st.permutations(names))
+    order = draw(order_st)
+    as_arg = draw(st.booleans())
+    lib_order = draw(order_st) if as_arg and draw(st.booleans()) else None   # stored order that the argument must override
     lib = {}
     mapped = {}
     for g in glyphs:
@@ -56,7 +59,8 @@ def _case(draw):
     return {
         "spec": {"info": {"unitsPerEm": 1000}, "glyphs": glyphs, "lib": lib},
         "order": order,
-        "as_arg": draw(st.booleans()),
+        "as_arg": as_arg,
+        "lib_order": lib_order,
         "module": draw(st.sampled_from(["ufoLib2", "defcon"])),
         "flavour": draw(st.sampled_from(["ttf", "otf"])),
     }
@@ -85,6 +89,7 @@ def enumerate_cases(tier):
                         "spec": {"info": {"unitsPerEm": 1000}, "glyphs": glyphs, "lib": {}},
                         "order": list(order),
                         "as_arg": bool(i & 1),
+                        "lib_order": (["c", "b", "a"] if i & 8 else None) if i & 1 else None,
                         "module": "ufoLib2" if i & 2 else "defcon",
                         "flavour": "ttf" if i & 4 else "otf",
                     }
@@ -112,18 +117,21 @@ def run_case(case, ctx):
     spec, order, as_arg = case["spec"], case["order"], case["as_arg"]
     module = S.ufo_module(case["module"])
     sp = dict(spec)
-    if not as_arg and order is not None:
-        sp["glyphOrder"] = order
+    lib_order = case.get("lib_order") if as_arg else order
+    if lib_order is not None:
+        sp["glyphOrder"] = lib_order
     f = S.build(sp, module)
-    if "public.glyphOrder" in f.lib and (as_arg or order is None):
+    if "public.glyphOrder" in f.lib and lib_order is None:
         del f.lib["public.glyphOrder"]  # defcon materialises insertion order otherwise
+    if as_arg and order is None:
+        order = lib_order   # no argument given: the stored order counts
     owners = collections.defaultdict(set)
     for g in spec["glyphs"]:
         for cp in g["unicodes"]:
             owners[cp].add(g["name"])
     has_dup = any(len(v) > 1 for v in owners.values())
     comp = ufo2ft.compileTTF if case["flavour"] == "ttf" else ufo2ft.compileOTF
-    kw = {"glyphOrder": list(order)} if as_arg and order is not None else {}
+    kw = {"glyphOrder": list(case["order"])} if as_arg and case["order"] is not None else {}
     names = [g["name"] for g in spec["glyphs"]]
     try:
         with guard("compile", allowed=(InvalidFontData,)):
@@ -187,6 +195,10 @@ def run_case(case, ctx):
         ctx.nontrivial()
     if ".notdef" not in names:
         ctx.label("notdef-synthesised")
+    if as_arg and case.get("lib_order") is not None and case["order"] is not None:
+        ctx.label("argument-overrides-stored-order")
+        if not case["order"]:
+            ctx.label("empty-argument-overrides-stored-order")
     if order and len(set(order)) != len(order):
         ctx.label("order-has-duplicates")
     ctx.label(case["flavour"])
